@@ -129,29 +129,43 @@ theorem C14_printf_grammar (b : Str) (c : Char) (h : specOK b c = true) : (Seg.s
 
 /-- **C14_bounds.** On a well-formed format every index read in the format array is ≤ its length (the terminator is
     the last byte read), every index written in `fmt_buf` is ≤ the length (the buffer has length+1 bytes), and — with
-    `String_Format_To` as it is now, also when libc rejects a call — the run never takes the out-of-bounds outcome
-    (unless a user-supplied `show` reports one). -/
+    `String_Format_To` as it is now, also when libc rejects a call — the run never takes the out-of-bounds outcome,
+    PROVIDED no argument is the destination itself (`isSink`: see `C14_alias_refuted`) and no argument's `show` reports one. -/
 theorem C14_bounds (libc : Libc) (shw : Obj → Out → Out × Outcome)
     (segs : List Seg) (hwf : wfSegs cfgNow.conv segs = true) (args : List Obj) (o : Out) :
     let r := printToWith cfgNow (primNow libc) shw (render segs) args o
     r.marks.rdMax ≤ (render segs).length ∧ r.marks.wrMax ≤ (render segs).length ∧
-      ((∀ a o, (shw a o).2 ≠ .oob) → r.oc ≠ .oob) := by
+      ((∀ a ∈ args, a.isSink = false ∧ ∀ o, (shw a o).2 ≠ .oob) → r.oc ≠ .oob) := by
   obtain ⟨mk', h, h1, h2⟩ := printToWith_refines cfgNow (primNow libc) shw args C14_scan_set.1 segs hwf o
   simp only [h]
-  exact ⟨h1, h2, fun hs => refRun_not_oob cfgNow (primNow libc) shw (primNow_guarded libc) hs args segs 0 o⟩
+  exact ⟨h1, h2, fun hs => refRun_not_oob cfgNow (primNow libc) shw (primNow_guarded libc) args hs segs 0 o⟩
 
-/-- every format the built-in Show instances pass to `print_to` (read from the source) is well-formed -/
+/-- every format the built-in Show instances and `show_to` pass to `print_to` (read from the source) is well-formed -/
 theorem C14_show_formats_wf : ∀ f ∈ showNow.formats, (parseFmt cfgNow.conv f).isSome = true := by
   decide
 
-/-- **C14_bounds with the built-in Show instances**: no hypothesis about `show` is left — Int, Float, String, Array,
-    Tuple, List arguments (nested to any depth, any recursion fuel) never make `print_to_with` leave its buffers. -/
+/-- the facts about the scanner configuration and the show formats of the source that the proofs about `show` use: `%` ends
+    no specification, `%s` fetches `c_str`, `%p` the pointer, all show formats are well-formed, and the format of `show_to`
+    for a type without Show is literal `%s` literal `%p` literal -/
+theorem C14_show_facts : ShowFacts cfgNow showNow where
+  hpct := C14_scan_set.1
+  hfs := C14_dispatch_table.2.2.2.1
+  hfp := C14_dispatch_table.2.2.2.2.1
+  wf := C14_show_formats_wf
+  dflt := ⟨"<'".toList, "' At 0x".toList, ">".toList, by decide⟩
+
+/-- **C14_bounds with the built-in Show instances**: Int, Float, String, Array, Tuple, List, Table, Tree, Range, Slice, Box,
+    NULL, objects without a Show instance (nested to any depth, any recursion fuel) never make `print_to_with` leave its
+    buffers or run into undefined behaviour — provided no argument (and nothing its `show` reaches) is the destination
+    itself or a Type object (`plainArgs`, decidable; the excluded region: `C14_alias_refuted`). -/
 theorem C14_bounds_builtin (libc : Libc) (d : Nat)
-    (segs : List Seg) (hwf : wfSegs cfgNow.conv segs = true) (args : List Obj) (o : Out) :
+    (segs : List Seg) (hwf : wfSegs cfgNow.conv segs = true) (args : List Obj) (hpl : plainArgs d args = true) (o : Out) :
     let r := printTo cfgNow (primNow libc) showNow d (render segs) args o
     r.marks.rdMax ≤ (render segs).length ∧ r.marks.wrMax ≤ (render segs).length ∧ r.oc ≠ .oob := by
   have h := C14_bounds libc (showD cfgNow (primNow libc) showNow d) segs hwf args o
-  exact ⟨h.1, h.2.1, h.2.2 (showD_not_oob cfgNow (primNow libc) showNow (primNow_guarded libc) C14_scan_set.1 C14_show_formats_wf d)⟩
+  refine ⟨h.1, h.2.1, h.2.2 (fun a ha => ?_)⟩
+  have hp : plainD d a = true := List.all_eq_true.1 hpl a ha
+  exact ⟨plainD_not_sink d a hp, showD_not_oob cfgNow (primNow libc) showNow (primNow_guarded libc) C14_show_facts d a hp⟩
 
 /-! ## T1: position and sinks -/
 
@@ -160,9 +174,10 @@ theorem C14_bounds_builtin (libc : Libc) (d : Nat)
     String and a File receive the same calls), the returned position is start + the number of characters libc wrote for
     them (a rejected call writes none), a File receives exactly that text at its offset, and a String written from
     `start ≤ length` holds `take start old ++ text` — it is untouched if libc accepted no call (none was made, or the
-    first one was rejected: `if (size < 0) { return size; }`).  `show` may be any function that is itself pure. -/
-theorem C14_position (libc : Libc) (shw : Obj → Out → Out × Outcome) (hs : ∀ a, Pure (primNow libc) (shw a))
-    (fmt : Str) (args : List Obj) :
+    first one was rejected: `if (size < 0) { return size; }`).  `show` may be any function that is pure on the arguments;
+    no argument may be the destination itself. -/
+theorem C14_position (libc : Libc) (shw : Obj → Out → Out × Outcome)
+    (fmt : Str) (args : List Obj) (hs : ∀ a ∈ args, a.isSink = false ∧ Pure (primNow libc) (shw a)) :
     ∃ (cs : List Call) (oc : Outcome), ∀ (sink : Sink) (start : Nat),
       let prim := primNow libc
       let r := printToWith cfgNow prim shw fmt args ⟨sink, start, []⟩
@@ -171,7 +186,7 @@ theorem C14_position (libc : Libc) (shw : Obj → Out → Out × Outcome) (hs : 
       (∀ v, sink = .str v → start ≤ v.length →
         r.out.sink = if accepted prim cs = [] then .str v else .str (v.take start ++ textOf prim cs)) := by
   have hg := primNow_guarded libc
-  obtain ⟨cs, oc, h⟩ := printToWith_pure (primNow libc) cfgNow shw hg hs fmt args
+  obtain ⟨cs, oc, h⟩ := printToWith_pure (primNow libc) cfgNow shw hg fmt args hs
   refine ⟨cs, oc, fun sink start => ?_⟩
   have hr := h ⟨sink, start, []⟩
   simp only [Result.pair, Prod.mk.injEq] at hr
@@ -182,8 +197,10 @@ theorem C14_position (libc : Libc) (shw : Obj → Out → Out × Outcome) (hs : 
   · exact emitAll_str_guarded (primNow libc) hg cs ⟨sink, start, []⟩ v hv hle
 
 /-- **C14_position for the built-in types**: the same with `show` = the model of Int_Show / Float_Show / String_Show /
-    Array_Show / Tuple_Show / List_Show (any recursion fuel): no hypothesis left. -/
-theorem C14_position_builtin (libc : Libc) (d : Nat) (fmt : Str) (args : List Obj) :
+    Array_Show / Tuple_Show / List_Show / Table_Show / Tree_Show / Range_Show / Slice_Show / Box_Show / `show_to` (any
+    recursion fuel), for arguments that neither are nor reach the destination itself or a Type object (`plainArgs`; the
+    excluded region: `C14_alias_refuted`, `C14_type_show_position_refuted`). -/
+theorem C14_position_builtin (libc : Libc) (d : Nat) (fmt : Str) (args : List Obj) (hpl : plainArgs d args = true) :
     ∃ (cs : List Call) (oc : Outcome), ∀ (sink : Sink) (start : Nat),
       let prim := primNow libc
       let r := printTo cfgNow prim showNow d fmt args ⟨sink, start, []⟩
@@ -191,7 +208,9 @@ theorem C14_position_builtin (libc : Libc) (d : Nat) (fmt : Str) (args : List Ob
       (∀ c, sink = .file c → r.out.sink = .file (c ++ textOf prim cs)) ∧
       (∀ v, sink = .str v → start ≤ v.length →
         r.out.sink = if accepted prim cs = [] then .str v else .str (v.take start ++ textOf prim cs)) :=
-  C14_position libc (showD cfgNow (primNow libc) showNow d) (showD_pure (primNow libc) cfgNow showNow (primNow_guarded libc) d) fmt args
+  C14_position libc (showD cfgNow (primNow libc) showNow d) fmt args (fun a ha => by
+    have hp : plainD d a = true := List.all_eq_true.1 hpl a ha
+    exact ⟨plainD_not_sink d a hp, showD_pure cfgNow (primNow libc) showNow (primNow_guarded libc) C14_show_facts d a hp⟩)
 
 /-! ## T1: too few arguments -/
 
@@ -337,6 +356,80 @@ theorem C14_show_containers (prim : Prim) (d : Nat) (items : List Obj) (o : Out)
     showD_array cfgNow prim showNow hp hd hf hfp _ _ a1 a2 a3 d items o,
     showD_list cfgNow prim showNow hp hd hf hfp _ _ l1 l2 l3 d items o⟩
 
+/-- the formats of Table_Show / Tree_Show / Range_Show / Slice_Show / Box_Show / `show_to` read from the source -/
+theorem C14_show_formats_more :
+    parseFmt cfgNow.conv showNow.tblOpen = some [.lit "<'Table' At 0x".toList, .spec [] 'p', .lit " {".toList] ∧
+    parseFmt cfgNow.conv showNow.tblPair = some [.spec [] '$', .lit ":".toList, .spec [] '$'] ∧
+    isLitFmt showNow.tblSep = true ∧ isLitFmt showNow.tblClose = true ∧
+    parseFmt cfgNow.conv showNow.treOpen = some [.lit "<'Tree' At 0x".toList, .spec [] 'p', .lit " {".toList] ∧
+    parseFmt cfgNow.conv showNow.trePair = some [.spec [] '$', .lit ":".toList, .spec [] '$'] ∧
+    isLitFmt showNow.treSep = true ∧ isLitFmt showNow.treClose = true ∧
+    parseFmt cfgNow.conv showNow.rngOpen = some [.lit "<'Range' At 0x".toList, .spec [] 'p', .lit " [".toList] ∧
+    parseFmt cfgNow.conv showNow.rngItem = some [.spec [] 'i'] ∧
+    isLitFmt showNow.rngSep = true ∧ isLitFmt showNow.rngClose = true ∧
+    parseFmt cfgNow.conv showNow.slcOpen = some [.lit "<'Slice' At 0x".toList, .spec [] 'p', .lit " [".toList] ∧
+    isLitFmt showNow.slcSep = true ∧ isLitFmt showNow.slcClose = true ∧
+    parseFmt cfgNow.conv showNow.boxFmt =
+      some [.lit "<'Box' at 0x".toList, .spec [] 'p', .lit " (".toList, .spec [] '$', .lit ")>".toList] ∧
+    isLitFmt showNow.nullFmt = true ∧
+    parseFmt cfgNow.conv showNow.defaultFmt =
+      some [.lit "<'".toList, .spec [] 's', .lit "' At 0x".toList, .spec [] 'p', .lit ">".toList] := by
+  decide
+
+/-- **Table, Tree, Range, Slice, Box, NULL and objects without a Show instance.**  `%$` (i.e. `show_to`) on
+    * a Table / a Tree: the opening with the object's address, then for each pair in iteration order (slot order / key
+      order — the order `Obj.table` / `Obj.tree` carry) the key's own show, `:`, the value's own show, `, ` between two
+      pairs (not after the last), then `}>`;
+    * a Range: the opening, one `%i` call per value the iteration yields, `, ` between two, `]>`;
+    * a Slice: the opening, each item's own show, `, ` between two, `]>`;
+    * a Box: `<'Box' at 0x` address ` (` the show of what it holds `)>`;
+    * NULL: the literal `<NULL>`;
+    * an object of a type without Show: `<'` the type's name `' At 0x` address `>`.
+    Each element's show text appears exactly once, in order (`showPairsSpec`, `showIntsSpec`, `showItemsSpec`). -/
+theorem C14_show_more (prim : Prim) (d : Nat) (ps : List (Obj × Obj)) (ns : List Int) (items : List Obj) (x : Obj)
+    (t : Str) (o : Out) :
+    let elem := fun x o => showD cfgNow prim showNow d x o
+    let lit := fun (s : Str) (o : Out) => o.call prim s .none
+    let ptr := fun (o : Out) => o.call prim ['%', 'p'] .ptr
+    showD cfgNow prim showNow (d + 1) (.table ps) o =
+      andThen (addrCalls prim "<'Table' At 0x".toList " {".toList)
+        (andThen (showPairsSpec prim elem ":".toList showNow.tblSep ps) (lit showNow.tblClose)) o ∧
+    showD cfgNow prim showNow (d + 1) (.tree ps) o =
+      andThen (addrCalls prim "<'Tree' At 0x".toList " {".toList)
+        (andThen (showPairsSpec prim elem ":".toList showNow.treSep ps) (lit showNow.treClose)) o ∧
+    showD cfgNow prim showNow (d + 1) (.range ns) o =
+      andThen (addrCalls prim "<'Range' At 0x".toList " [".toList)
+        (andThen (showIntsSpec prim ['%', 'i'] showNow.rngSep ns) (lit showNow.rngClose)) o ∧
+    showD cfgNow prim showNow (d + 1) (.slice items) o =
+      andThen (addrCalls prim "<'Slice' At 0x".toList " [".toList)
+        (andThen (showItemsSpec prim elem showNow.slcSep items) (lit showNow.slcClose)) o ∧
+    showD cfgNow prim showNow (d + 1) (.box x) o =
+      andThen (lit "<'Box' at 0x".toList) (andThen ptr (andThen (lit " (".toList) (andThen (elem x) (lit ")>".toList)))) o ∧
+    showD cfgNow prim showNow (d + 1) .null o = lit showNow.nullFmt o ∧
+    showD cfgNow prim showNow (d + 1) (.other t) o =
+      andThen (lit "<'".toList) (andThen (fun o => o.call prim ['%', 's'] (.cstr t))
+        (andThen (lit "' At 0x".toList) (andThen ptr (lit ">".toList)))) o := by
+  have hp := C14_scan_set.1
+  have hd := C14_scan_set.2.1 '$' (by decide)
+  have hf := C14_dispatch_table.2.2.2.2.2
+  have hfp := C14_dispatch_table.2.2.2.2.1
+  have hfs := C14_dispatch_table.2.2.2.1
+  have hfi : firing cfgNow 'i' = [.cint] := C14_dispatch_table.1 'i' (by decide)
+  obtain ⟨t1, t2, t3, t4, r1, r2, r3, r4, g1, g2, g3, g4, s1, s2, s3, b1, n1, d1⟩ := C14_show_formats_more
+  refine ⟨showD_table cfgNow prim showNow hp hf hfp _ _ _ t1 t2 t3 t4 d ps o,
+    showD_tree cfgNow prim showNow hp hf hfp _ _ _ r1 r2 r3 r4 d ps o, ?_,
+    showD_slice cfgNow prim showNow hp hd hf hfp _ _ s1 s2 s3 d items o, ?_, ?_, ?_⟩
+  · have := showD_range cfgNow prim showNow hp hfp [] 'i' hfi _ _ g1 g2 g3 g4 d ns o
+    have hi : showNow.rngItem = ['%', 'i'] := by decide
+    rw [hi] at this
+    exact this
+  · simp only [showD]
+    exact print_box cfgNow prim _ hp hf hfp _ _ _ _ b1 (.box x) x o
+  · simp only [showD]
+    exact print_lit cfgNow prim _ hp _ n1 [] o
+  · simp only [showD]
+    exact print_default cfgNow prim _ hp hfs hfp _ _ _ _ d1 t (.other t) o
+
 /-! ## known finding F29, malformed tails, non-vacuity -/
 
 /-- **F29 (known finding).** The statement "when FormatError is raised the destination is unchanged" is false for the
@@ -344,6 +437,33 @@ theorem C14_show_containers (prim : Prim) (d : Nat) (items : List Obj) (o : Out)
 theorem C14_unchanged_on_error_refuted :
     let r := printTo cfgNow primTest showNow 4 ['a', 'b', 'c', ' ', '%', 'd'] [] ⟨.str ['o', 'l', 'd'], 0, []⟩
     r.oc = .raised .FormatError ∧ r.out.sink = .str ['a', 'b', 'c', ' '] ∧ r.out.sink ≠ .str ['o', 'l', 'd'] := by
+  decide
+
+/-- **Aliasing (known finding KF-C14-alias).** `C14_bounds_builtin` / `C14_position_builtin` exclude arguments that are
+    the destination itself, and they must: `print_to(s, 2, "%s", s)` on a String holding "ab" — `c_str(s)` is fetched, then
+    `String_Format_To` reallocates `s->val` and `vsprintf` reads the old block — and `print_to(s, 2, "%$", s)` (also through a
+    Tuple that contains `s`) — `String_Show` walks the buffer its own first `print_to` reallocated — are undefined
+    behaviour in the code as it is (heap-use-after-free under ASan); `plainArgs` is false exactly there.  A File as its
+    own argument is harmless (no C_Str: ClassError; no Show: the default `<'File' At 0x…>`). -/
+theorem C14_alias_refuted :
+    let o : Out := ⟨.str ['a', 'b'], 2, []⟩
+    (printTo cfgNow primTest showNow 4 ['%', 's'] [.sink] o).oc = .oob ∧
+    (printTo cfgNow primTest showNow 4 ['%', '$'] [.sink] o).oc = .oob ∧
+    (printTo cfgNow primTest showNow 4 ['%', '$'] [.tuple [.int 1, .sink]] o).oc = .oob ∧
+    plainArgs 4 [.sink] = false ∧ plainArgs 4 [.tuple [.int 1, .sink]] = false ∧
+    (printTo cfgNow primTest showNow 4 ['%', 's'] [.sink] ⟨.file ['a', 'b'], 2, []⟩).oc = .raised .ClassError ∧
+    (printTo cfgNow primTest showNow 4 ['%', '$'] [.sink] ⟨.file [], 0, []⟩).out.sink = .file "<'File' At 0xp>".toList := by
+  decide
+
+/-- **Type_Show returns a length, not a position (known finding KF-C14-type-show).** `print_to(s, 5, "[%$]", Int)` on a
+    String holding "hello": `Type_Show` is `return format_to(output, pos, "%s", name)`, so after `[Int` was written at 5…8
+    the position becomes 3, the closing `]` lands at index 3, the String is `hel]` and 4 is returned — not
+    `hello[Int]` / 10.  (What the real code does, too.)  `plainArgs` excludes Type objects for this reason. -/
+theorem C14_type_show_position_refuted :
+    let r := printTo cfgNow primTest showNow 4 ['[', '%', '$', ']'] [.type ['I', 'n', 't']] ⟨.str "hello".toList, 5, []⟩
+    r.oc = .ok ∧ r.out.pos = 4 ∧ r.out.sink = .str "hel]".toList ∧
+    5 + (textOf primTest r.out.calls).length = 10 ∧ plainArgs 4 [.type ['I', 'n', 't']] = false ∧
+    showNow.typeOff = true := by
   decide
 
 /-- Outside the grammar the bounds do fail: a format that is one incomplete specification (`"%5"`) makes
@@ -375,5 +495,33 @@ example :
       ⟨"%llx".toList, .i64 255⟩, ⟨"%%".toList, .none⟩, ⟨"%s".toList, .cstr ['a']⟩, ⟨"%p".toList, .ptr⟩] ∧
     nspecs segs = 4 ∧ expectCalls (fun _ => []) (args.take 3) segs 0 = none := by
   decide
+
+/-- Non-vacuity of `C14_reject_unchanged` and of the `NoReject` side of `C14_too_few`: a prefix with a literal, `%%` and an
+    accepted `%d`, then `%lc` with 8364 (rejected by `libcTest`), then a suffix: the hypotheses hold, and the machine
+    leaves `take 1 "old" ++ "x=n%"`, position 5, FormatError, the rejected call last in the log. -/
+example :
+    let pre := [Seg.lit ['x', '='], .spec [] 'd', .pct]
+    let segs := pre ++ .spec ['l'] 'c' :: [Seg.lit ['!'], .spec [] 's']
+    let args := [Obj.int 7, .int 8364, .str ['z']]
+    let r := printTo cfgNow primTest showNow 4 (render segs) args ⟨.str ['o', 'l', 'd'], 1, []⟩
+    wfSegs cfgNow.conv segs = true ∧ Typed args segs 0 ∧
+    expectCalls (fun _ => []) args pre 0 = some [⟨['x', '='], .none⟩, ⟨['%', 'd'], .i64 7⟩, ⟨['%', '%'], .none⟩] ∧
+    nspecs pre = 1 ∧ specVal 'c' (.int 8364) = some (.i64 8364) ∧ libcTest.rej ['%', 'l', 'c'] (.i64 8364) = true ∧
+    libcTest.rej ['%', 'd'] (.i64 7) = false ∧
+    r.oc = .raised .FormatError ∧ r.out.sink = .str ['o', 'x', '=', 'n', '%'] ∧ r.out.pos = 5 ∧
+    r.out.calls.getLast? = some ⟨['%', 'l', 'c'], .i64 8364⟩ ∧ r.out.calls.length = 4 := by
+  refine ⟨by decide, ?_, by decide, by decide, by decide, by decide, by decide, by decide, by decide, by decide, by decide, by decide⟩
+  refine ⟨?_, ?_, ?_, trivial⟩ <;> (intro a ha; simp at ha; subst ha; right; decide)
+
+/-- Non-vacuity of `plainArgs`: nested containers of every modelled kind are plain; the show text of a Table inside a Box
+    inside a Tuple. -/
+example :
+    let a := Obj.tuple [.box (.table [(.int 1, .str ['a']), (.int 2, .null)]), .range [0, 2], .slice [.flt 0], .other ['F', 'i', 'l', 'e'],
+      .tree [], .box .null]
+    let r := printTo cfgNow primTest showNow 6 ['%', '$'] [a] ⟨.file [], 0, []⟩
+    plainArgs 6 [a] = true ∧ r.oc = .ok ∧
+    r.out.sink = .file ("tuple(<'Box' at 0xp (<'Table' At 0xp {n:\"n\", n:<NULL>}>)>, <'Range' At 0xp [n, n]>, " ++
+      "<'Slice' At 0xp [f]>, <'File' At 0xp>, <'Tree' At 0xp {}>, <'Box' at 0xp (<NULL>)>)").toList := by
+  decide +kernel
 
 end Cello.Fmt
